@@ -64,9 +64,10 @@ def prop_value(p, tick):
 class ScriptModel(GenericModel):
     """step script entries: dict(p=(kind, v), s=bool, newlay=layout|None); cycles when exhausted"""
 
-    def __init__(self, idx, layout, t0, script, log, tick=1.0):
+    def __init__(self, idx, layout, t0, script, log, tick=1.0, clock_offset=0):
         super().__init__()
         self.idx, self.layout, self.log, self.tick = idx, layout, log, tick
+        self.clock_offset = clock_offset          # a sub-model with a clock of its own (e.g. solved alone before): a coupling keeps its OWN time
         self.t = t0 * tick
         self.x = build_x(layout, [100 * j for j in range(1, flat_len(layout) + 1)])
         self.script = script
@@ -83,7 +84,7 @@ class ScriptModel(GenericModel):
     def getCurrentX(self):
         lay, flat = observe(self.x)
         self.log.append({"e": "curx", "m": self.idx, "lay": lay, "x": flat})
-        return self.t, self.x
+        return self.t + self.clock_offset * self.tick, self.x
 
     def preProcess(self):
         self.log.append({"e": "pre", "m": self.idx})
@@ -134,7 +135,8 @@ def run_trace(case):
     log = []
     nm = case["nm"]
     tick = case.get("tick", 1.0)
-    models = [ScriptModel(i + 1, case["layouts"][i], case["t0"], case["scripts"][i], log, tick) for i in range(nm)]
+    offs = case.get("clock_offsets") or [0] * nm
+    models = [ScriptModel(i + 1, case["layouts"][i], case["t0"], case["scripts"][i], log, tick, clock_offset=(offs[i] if case.get("coupler", nm > 1) else 0)) for i in range(nm)]
     if case.get("coupler", nm > 1):
         top = Coupler(models)
         top.time = np.array([case["t0"] * tick])
@@ -183,6 +185,12 @@ def gen_cases(rng, tier, nm, it):
         for ps in itertools.product(plist, repeat=nm):
             sc = [[dict(p=ps[i], s=False), dict(p=("num", 2), s=False)] for i in range(nm)]
             cases.append(dict(nm=nm, iter=it, t0=0, layouts=base_lay, scripts=sc, calls=[(8, 8, 2)]))
+    if nm > 1:
+        # sub-models whose own clock differs from the coupling's (solved alone before / keeping no clock): the coupling starts every call at ITS time
+        sc2 = [dict(p=("num", 2), s=False), dict(p=("num", 1), s=False)]
+        for offs in ([0] * (nm - 1) + [5], [5] + [0] * (nm - 1), [3] * nm):
+            cases.append(dict(nm=nm, iter=it, t0=0, layouts=base_lay, scripts=[sc2 for _ in range(nm)], calls=[(8, 8, 2), (8, 8, 2)], clock_offsets=offs))
+            cases.append(dict(nm=nm, iter=it, t0=3, tick=0.25, layouts=base_lay, scripts=[sc2 for _ in range(nm)], calls=[(16, 8, 4)], clock_offsets=offs))
     nrand = (150 if tier == "quick" else 1500) // nm
     for _ in range(nrand):
         t0 = rng.choice([0, 3, 1024])
